@@ -36,7 +36,7 @@ from deep.api.tracepoint import EventSnapshot
 from deep.api.tracepoint.constants import FRAME_TYPE, SINGLE_FRAME_TYPE, NO_FRAME_TYPE, ALL_FRAME_TYPE, STAGE, \
     LINE_CAPTURE, METHOD_CAPTURE
 from deep.api.tracepoint.eventsnapshot import WATCH_SOURCE_WATCH
-from deep.api.tracepoint.trigger import LocationAction
+from deep.api.tracepoint.trigger import LocationAction, read_limit
 from deep.processor.context.action_context import ActionContext
 from deep.processor.context.action_results import ActionResult, ActionCallback
 from deep.processor.context.log_action import LOG_MSG, LogActionContext, LogActionResult
@@ -54,18 +54,18 @@ class SnapshotActionContext(FrameCollectorContext, ActionContext):
     @property
     def max_tp_process_time(self) -> int:
         """The max time to spend processing a tracepoint."""
-        return self.location_action.config.get('MAX_TP_PROCESS_TIME', 100)
+        return read_limit(self.location_action.config, 'MAX_TP_PROCESS_TIME', 100)
 
     @property
     def collection_config(self) -> VariableProcessorConfig:
         """The variable processing config."""
         config = VariableProcessorConfig()
-        config.max_string_length = self.location_action.config.get('MAX_STRING_LENGTH',
-                                                                   config.DEFAULT_MAX_STRING_LENGTH)
-        config.max_collection_size = self.location_action.config.get('MAX_COLLECTION_SIZE',
-                                                                     config.DEFAULT_MAX_COLLECTION_SIZE)
-        config.max_variables = self.location_action.config.get('MAX_VARIABLES', config.DEFAULT_MAX_VARIABLES)
-        config.max_var_depth = self.location_action.config.get('MAX_VAR_DEPTH', config.DEFAULT_MAX_VAR_DEPTH)
+        action_config = self.location_action.config
+        config.max_string_length = read_limit(action_config, 'MAX_STRING_LENGTH', config.DEFAULT_MAX_STRING_LENGTH)
+        config.max_collection_size = read_limit(action_config, 'MAX_COLLECTION_SIZE',
+                                                config.DEFAULT_MAX_COLLECTION_SIZE)
+        config.max_variables = read_limit(action_config, 'MAX_VARIABLES', config.DEFAULT_MAX_VARIABLES)
+        config.max_var_depth = read_limit(action_config, 'MAX_VAR_DEPTH', config.DEFAULT_MAX_VAR_DEPTH)
         return config
 
     @property
